@@ -113,6 +113,11 @@ fn editor_metadata_colors_lines() {
     assert!(Beatmap::parse_editor(&mut full, l1).is_ok() == Editor::parse_editor(&mut ed, l1).is_ok());
     let l2 = tok_line("BeatmapID:$b");
     assert!(Beatmap::parse_metadata(&mut full, l2).is_ok() == Metadata::parse_metadata(&mut me, l2).is_ok());
+    // a metadata text value containing `//` is kept verbatim by both
+    let l4 = "Source:http://a // b";
+    assert!(Beatmap::parse_metadata(&mut full, l4).is_ok() == Metadata::parse_metadata(&mut me, l4).is_ok());
+    assert!(full.metadata.source.as_bytes() == me.source.as_bytes(), "the full decoder and the Metadata decoder read different text");
+    assert!(me.source.as_bytes() == b"http://a // b");
     let l3 = tok_line("Combo1 : $c,$d,$e");
     assert!(Beatmap::parse_colors(&mut full, l3).is_ok() == Colors::parse_colors(&mut co, l3).is_ok());
     assert!(full.editor.distance_spacing.to_bits() == ed.distance_spacing.to_bits());
@@ -149,6 +154,29 @@ fn events_line() {
     }
     kani::cover!(ev.breaks.len() == 1, "break accepted by all");
     kani::cover!(r3.is_err(), "break rejected by all");
+    core::mem::forget((full, ho, ev));
+}
+
+/// Two background-setting events in sequence: every decoder ends with the same background.
+fn events_two_backgrounds() {
+    let mut full = BeatmapState::create(14);
+    let mut ho = <HitObjects as DecodeBeatmap>::State::create(14);
+    let mut ev = <Events as DecodeBeatmap>::State::create(14);
+    let l1 = "0,0,\"first.jpg\",0,0";
+    let l2 = "Video,0,\"second.png\"";
+    let mut k = 0;
+    while k < 2 {
+        let l = if k == 0 { l1 } else { l2 };
+        let a = Beatmap::parse_events(&mut full, l).is_ok();
+        let b = HitObjects::parse_events(&mut ho, l).is_ok();
+        let c = Events::parse_events(&mut ev, l).is_ok();
+        assert!(a == c && b == c);
+        k += 1;
+    }
+    assert!(ev.background_file.as_bytes() == b"second.png");
+    assert!(full.hit_objects.events.background_file.as_bytes() == ev.background_file.as_bytes(), "Beatmap and Events disagree on the background");
+    assert!(ho.events.background_file.as_bytes() == ev.background_file.as_bytes(), "HitObjects and Events disagree on the background");
+    kani::cover!(true, "reached");
     core::mem::forget((full, ho, ev));
 }
 
@@ -239,6 +267,8 @@ oracle_proof!(c07_general_preview, 28, general_line("PreviewTime: $a", false));
 oracle_proof!(c07_general_stack, 28, general_line("StackLeniency:$a", true));
 // @verif property=C07 tier=quick timeout=1200 mem=16 bounds="[Editor] DistanceSpacing, [Metadata] BeatmapID, [Colours] Combo1 lines: Beatmap vs. the section's own decoder; other decoders ignore them"
 oracle_proof!(c07_editor_metadata_colors, 28, editor_metadata_colors_lines());
+// @verif property=C07 tier=quick timeout=1200 mem=16 bounds="[Events] two CONCRETE background-setting lines in sequence through Beatmap / HitObjects / Events: the last one wins in all three"
+oracle_proof!(c07_events_two_backgrounds, 48, events_two_backgrounds());
 // @verif property=C07 tier=quick timeout=1200 mem=16 bounds="[Events] break line '2,$a,$b' through Beatmap / HitObjects / Events"
 oracle_proof!(c07_events_break, 28, events_line());
 // @verif property=C07 tier=quick timeout=1200 mem=16 bounds="Beatmap::from(BeatmapState) with every numeric / flag field of General, Difficulty, Editor, Metadata and the version symbolic; two arbitrary breaks (order kept); empty object / control-point lists"
